@@ -193,6 +193,12 @@ def run_check(spec, tier, base_seed, budget_s=None, workers=None, out=sys.stdout
     exit_code = EXIT_HELD
     replay_paths = []
     if new_violations:
+        by = {}
+        for r, v in new_violations:
+            by[(v["cls"], v["site"])] = by.get((v["cls"], v["site"]), 0) + 1
+        for (c, st), n in sorted(by.items()):
+            print("  violation class=%s site=%s: %d runs" % (c, st, n), file=out)
+    if new_violations:
         exit_code = EXIT_VIOLATION
         # one replay file per distinct (class, site); minimise the lowest-seed instance
         seen = set()
@@ -326,6 +332,7 @@ def write_evidence(spec, tier, base_seed, results, wall, n_viol, det_pairs, know
     fam_stats = {}
     faults, probes, counters = {}, {}, {}
     sigs = set()
+    metrics_max = {}
     sim_s = 0.0
     events = 0
     for r in results:
@@ -338,6 +345,11 @@ def write_evidence(spec, tier, base_seed, results, wall, n_viol, det_pairs, know
         _merge(faults, r.get("faults", {}))
         _merge(probes, r.get("probes", {}))
         _merge(counters, r.get("counters", {}))
+        for mk, mv in (r.get("metrics") or {}).items():
+            if isinstance(mv, (int, float)) and mv == mv:
+                metrics_max[mk] = max(metrics_max.get(mk, mv), mv)
+            elif isinstance(mv, list) and mv and all(isinstance(z, (int, float)) for z in mv):
+                metrics_max[mk] = max(metrics_max.get(mk, max(mv)), max(mv))
         sim_s += r.get("sim_s", 0.0)
         events += r.get("events", 0)
         if r.get("nontrivial") and r.get("sig"):
@@ -366,6 +378,7 @@ def write_evidence(spec, tier, base_seed, results, wall, n_viol, det_pairs, know
             "faults_not_applicable": spec.get("faults_na", []),
             "probes": probes,
             "counters": counters,
+            "worst_observed_metrics": metrics_max,
             "real_components": spec.get("real", []),
             "stub_components": spec.get("stub", []),
             "determinism_pairs_checked": det_pairs,
